@@ -51,8 +51,15 @@ void harness(void) {
 #endif
   }
   /* (b)+(c): load a prefix */
-  uint64_t tlen = in_range(0, full);
+  /* truncation: inside the headers the length is a concrete cell (TLEN), inside the pixel data it is symbolic in
+   * [header length, full] (the file model keeps header bytes concrete below that bound) */
+#ifdef TLEN
+  uint64_t tlen = TLEN < full ? TLEN : full;
   file_rewind(tlen);
+#else
+  uint64_t tlen = in_range(0, full);
+  file_rewind_min(tlen, hdr);
+#endif
   r = w_load(1, HFILE);
   OBS(r);
   if (tlen == full) ASSERT(r == 0, "the complete file loads");
